@@ -1,8 +1,8 @@
 (* C02 - the truth log is append-only; read-only, dry-run and no-op capabilities never write.
    Statements only; proofs are in Proofs/ContStoreProofs.v and Proofs/LogProofs.v. *)
 From RipV Require Import Base.Prelude Model.Frames Model.Log Model.ContStore Model.LogBytes
-  Model.CapEffects Proofs.LogProofs Proofs.ContStoreProofs Proofs.LogBytesProofs Proofs.CapEffectsProofs
-  Gen.LogOpen Gen.Effects.
+  Model.CapEffects Model.SidecarInv Proofs.LogProofs Proofs.ContStoreProofs Proofs.LogBytesProofs
+  Proofs.CapEffectsProofs Proofs.SidecarInvProofs Gen.LogOpen Gen.Effects.
 
 (* one micro-step of any actor running ANY program (well-formed or not) in ANY state leaves the
    log as it was or adds exactly one frame at the end *)
@@ -86,6 +86,35 @@ Example c02_call_graph_nontrivial :
   has_cap_row gen_cap_reaches_append 5 false = true /\ has_cap_row gen_cap_reaches_append 15 true = true
   /\ has_route_row gen_route_reaches_append 6 false = true /\ has_route_row gen_route_reaches_append 13 true = true.
 Proof. exact (conj eq_refl (conj eq_refl (conj eq_refl eq_refl))). Qed.
+
+(* ---------- which ids get a cache file ----------
+   The thread id of a call reaches the cache's path_for verbatim (`../events` names the truth log).
+   In the model a sidecar exists only for an id that some frame IN THE LOG carries as stream id - for
+   every number of actors, every program, every schedule ... *)
+Theorem c02_sidecars_only_for_ids_in_the_log : forall (sched : list N) (st : state) (c : N),
+  SideInv st -> s_side (run sched st) c <> None ->
+  exists f, In f (s_log (run sched st)) /\ sid f = c.
+Proof. exact sidecars_named_any_schedule. Qed.
+Print Assumptions c02_sidecars_only_for_ids_in_the_log.
+
+(* ... and for every history of capability calls (any ids, known or not), cache faults and restarts *)
+Theorem c02_sidecars_only_for_ids_in_the_log_histories : forall (ks : list call) (c : N),
+  s_side (snd (run_calls empty_state ks)) c <> None ->
+  exists f, In f (s_log (snd (run_calls empty_state ks))) /\ sid f = c.
+Proof. exact sidecars_named_any_history. Qed.
+Print Assumptions c02_sidecars_only_for_ids_in_the_log_histories.
+
+(* false without the emptiness guard of replay_events (seeded change C02-1): one read of an id that
+   no frame names leaves a cache file for it *)
+Theorem c02_sidecars_unguarded_rebuild_refuted :
+  snd (replay_events_unguarded empty_state 7) 7 <> None /\ ~ (exists f, In f (s_log empty_state) /\ sid f = 7).
+Proof. exact unguarded_rebuild_refuted. Qed.
+Print Assumptions c02_sidecars_unguarded_rebuild_refuted.
+
+Example c02_sidecar_demo :
+  let st := snd (run_calls empty_state [KCap CapEnsureDefault 0 fact_ok; KCap CapReplay 0 fact_ok; KCap CapReplay 99 fact_ok]) in
+  s_side st 0 <> None /\ s_side st 4294967295 = None /\ map sid (s_log st) = [0].
+Proof. exact sidecar_demo. Qed.
 
 (* ---------- byte level: what is IN THE FILE after every write(2) of EventLog::append ----------
    BufWriter rule (Model/LogBytes.v): bytes reach the file when the buffer is flushed or when one
